@@ -26,6 +26,8 @@ THEOREMS = [
     "C06.converge_column",
     "C06.converge_counterexample",
     "C06.converge_partial",
+    "C06.quiet_partial_deferring",
+    "C06.converge_partial_deferring",
 ]
 PARTIAL = {
     "C06.types_quiet_partial": "types whose SQLite DDL name is not in SQLAlchemy's ischema_names (CLOB, BINARY, VARBINARY, DOUBLE PRECISION, UUID) reflect through affinity and are reported as changed (C06-T1; types_quiet_counterexample)",
@@ -41,7 +43,7 @@ TRUSTED = [
 RULE = (
     "schema pairs: A random (1-5 tables, 1-6 columns over a 35-entry type catalogue with random arguments, nullability, "
     "defaults of every syntactic class, 0-3 indexes, 0-2 named uniques, 0-2 FKs); B = A with 0-6 random edits (85%) or independent (15%); "
-    "x compare_type x compare_server_default x batch (non-batch only when SQLite can ALTER every op); 25% of pairs leave the proved class "
+    "x compare_type x compare_server_default (on / off, plus one run per pair with both as callables: always answering None, or False on ~20% of the columns) x batch (non-batch only when SQLite can ALTER every op); 25% of pairs leave the proved class "
     "(non-plain defaults, unreflectable types). Non-trivial = the first diff is non-empty; distinct by (settings, op list)"
 )
 ASSUMPTIONS = [
@@ -78,6 +80,12 @@ def run(ctx, n_pairs=None, rng_name="main", max_seconds=None):
             r = K.run_pair(ctx, a, b, ct, cd, True, pending)
             if r == "create-failed":
                 break
+        else:
+            # compare_type / compare_server_default as callables: always deferring (None), or answering False on some columns
+            if i % 2 == 0:
+                K.run_pair(ctx, a, b, {"callable": []}, {"callable": []}, True, pending)
+            else:
+                K.run_pair(ctx, a, b, K.callable_setting(rng, [a, b]), K.callable_setting(rng, [a, b]), True, pending)
         K.run_pair(ctx, a, b, True, True, False, pending, compare_model=False)
         if len(pending) > 400:
             K.flush_pairs(ctx, pending)
